@@ -327,6 +327,39 @@ theorem pending_survives_divert (body : Body) (hm : MapPreserving body) (t : Tra
     rw [hb]
     exact pendingCommands_filter t s hsorted
 
+/-- ★ `trap_error_status_propagates`: when a trap action is interrupted by an error
+    (`Divert::Interrupt(Some(x))`, e.g. an expansion error, `x` = 2), `run_trap` leaves `$?` = `x` and
+    passes `Interrupt(Some(x))` on unchanged; hence a run of the pending traps that ends in
+    `Interrupt(Some(x))` leaves `$?` = `x` (the non-interactive shell then exits with it) — never the
+    `$?` of before the action. -/
+theorem trap_error_status_propagates (body : Body) (c : Nat) (exit : Int) (t : TrapMap) (x : Int)
+    (hb : (body c exit t).1.divert = some (.interrupt (some x))) :
+    (runTrap body c exit t).1 = x ∧ (runTrap body c exit t).2.1 = some (.interrupt (some x))
+    ∧ ∀ (inTrap : Bool) (t' : TrapMap) (e' : Int) (y : Int),
+        (runTrapsForCaughtSignals body inTrap t' e').divert = some (.interrupt (some y)) →
+        (runTrapsForCaughtSignals body inTrap t' e').exit = y := by
+  refine ⟨?_, ?_, ?_⟩
+  · simp [runTrap, hb]
+  · simp [runTrap, hb]
+  · intro inTrap t' e' y h
+    unfold runTrapsForCaughtSignals at h ⊢
+    cases inTrap with
+    | true => simp at h
+    | false =>
+      simp only [Bool.false_eq_true, if_false] at h ⊢
+      exact drain_interrupt_exit body _ t' e' [] y h
+
+/-- non-vacuity: the action of SIGINT fails with status 2 while `$?` = 5: the run ends in
+    `Interrupt(Some(2))` with `$?` = 2, and SIGUSR1 is still pending -/
+example :
+    let t : TrapMap := catchSignal (catchSignal
+      (set (set [] SIGUSR1 { current := { action := .command 1, origin := .user 0 } })
+        SIGINT { current := { action := .command 2, origin := .user 1 } }) SIGINT) SIGUSR1
+    let body : Body := fun c e t => ({ exit := e, divert := if c = 2 then some (.interrupt (some 2)) else none }, t)
+    let r := runTrapsForCaughtSignals body false t 5
+    (r.exit, r.divert, pendingCommands r.traps) = (2, some (.interrupt (some 2)), [(SIGUSR1, 1)]) := by
+  decide
+
 /-- ☆ while a signal trap is running (`in_trap`), nothing is run and nothing is lost: the pending
     flags stay for the next boundary -/
 theorem no_nested_trap (body : Body) (t : TrapMap) (exit : Int) :
